@@ -98,7 +98,7 @@ class C09(Prop):
 
     def cases(self, rng: random.Random, tier: str) -> Iterable[dict]:
         # every dedicated family is visited at least twice per run, whatever the seed; the rest is drawn at random
-        forced = [0.04, 0.11, 0.16, 0.21, 0.245, 0.28, 0.32, 0.35, 0.38, 0.41] * 2
+        forced = [0.04, 0.11, 0.16, 0.21, 0.245, 0.28, 0.32, 0.35, 0.35, 0.38, 0.41] * 2
         while True:
             r = forced.pop() if forced else rng.random()
             if r < 0.08:
@@ -152,9 +152,15 @@ class C09(Prop):
                 continue
             if 0.34 <= r < 0.37:
                 # two functions made by ONE factory (identical, retrievable source text) that captured different values: different definitions
-                c1, c2 = rng.sample([0, 1, 2, "a", {"t": [1]}], 2)
+                if rng.random() < 0.5:
+                    c1, c2 = rng.sample([[0, None], [1, None], [2, None], ["a", None], [{"t": [1]}, None]], 2)
+                else:
+                    # two captured values whose printed forms CONCATENATE to the same text
+                    c1, c2 = rng.choice([([1, 23], [12, 3]), ([10, 1], [1, 1]), ([7, 70], [77, 0])])
+                    if rng.random() < 0.5:
+                        c1, c2 = c2, c1
                 mk = lambda c: [{"name": "g0", "nodes": [{"name": "na", "kind": "fn", "params": [["x", None]], "dataOuts": ["out"],  # noqa: E731
-                                                          "body": {"b": "closure", "t": "made", "c": c}, "cache": True}], "bound": []}]
+                                                          "body": {"b": "closure", "t": "made", "c": c[0], "c2": c[1]}, "cache": True}], "bound": []}]
                 yield {"kind": "runs2", "programs": [mk(c1), mk(c2)], "values": [["x", rng.randint(0, 3)]],
                        "backend": rng.choice(["mem", "lru2", "disk"]), "runner": rng.choice(["sync", "async"]), "share": False}
                 continue
